@@ -60,8 +60,56 @@ def evolutions_of(muts, sql_for=None):
     return evs
 
 
+def load_correspondence(ctx):
+    """`get_app_mutations` next to the Lean `loadLoop`: what is loaded for a list of labels on each database, for apps
+    that ship their evolutions as Python modules, generic SQL files and per-database SQL files in every mix"""
+    from django_evolution.mutations import AddField, DeleteField, SQLMutation
+    from django_evolution.compat.apps import get_app
+    from django_evolution.utils.evolutions import get_app_mutations
+    from django.db import models
+    py1 = lambda: [AddField('Note', 'x', models.IntegerField, null=True)]
+    py2 = lambda: [DeleteField('Note', 'title'), AddField('Note', 'y', models.IntegerField, null=True)]
+    G, D, O = ['SELECT 1;'], ['SELECT 2;', 'SELECT 22;'], ['SELECT 3;']
+    layouts = [
+        [('e0', {'other': O}, []), ('e1', None, py1())],
+        [('e0', {'default': D}, []), ('e1', None, py1()), ('e2', None, py2())],
+        [('e0', {'': G, 'default': D, 'other': O}, py1()), ('e1', None, py2())],
+        [('e0', None, py1()), ('e1', {'default': D}, []), ('e2', None, py2()), ('e3', {'other': O}, py1())],
+        [('e0', None, py1()), ('e1', None, py2())],
+        [('e0', {'default': D, 'other': O}, []), ('e1', {'other': O}, py2())],
+    ]
+    app = None
+    for layout in layouts:
+        evs = []
+        for label, files, py in layout:
+            e = {'label': label, 'mutations': py}
+            if files is not None:
+                e['sql_files'] = files
+            evs.append(e)
+        evorig.clear_evolutions()
+        evorig.set_evolutions('vapp', evs)
+        app = app or get_app('vapp')
+        req_labels = [{'label': label, 'per_db': [[a, ''.join(l + '\n' for l in lines)] for a, lines in (files or {}).items() if a],
+                       'py': [m.generate_hint() for m in py],
+                       **({'generic': ''.join(l + '\n' for l in files['']) } if files and '' in files else {})}
+                      for label, files, py in layout]
+        for db in ('default', 'other'):
+            try:
+                real = get_app_mutations(app, [l for l, _, _ in layout], database=db)
+                impl = [['sql', m.tag, ''.join(m.sql)] if isinstance(m, SQLMutation) else ['py', m.generate_hint()]
+                        for m in real]
+            except Exception as e:
+                impl = {'error': type(e).__name__}
+            out = ctx.driver.ask([{'op': 'load', 'db': db, 'labels': req_labels}])[0] if ctx.driver else None
+            if out is not None:
+                ctx.corr_case('load_mutations', out.get('loaded') == impl,
+                              case={'db': db, 'labels': req_labels}, model=out.get('loaded'), impl=impl)
+    evorig.clear_evolutions()
+
+
 def run(ctx):
     evorig.setup()
+    load_correspondence(ctx)
     quick = ctx.tier == 'quick'
     ctx.rule = ('apps of 2-3 unrelated-or-same-side-related models, EVERY split of the models over the databases '
                 '`default` and `other`, creation plus a generated evolution with mutations on both sides, each database '
